@@ -597,6 +597,51 @@ def iter_step(case, reg, toks, t, fails):
     return True
 
 
+def gdm_step(case, reg, toks, t, fails):
+    """get_disjoint_mut: per position what get_mut finds (slot and value), pairwise distinct slots;
+    two equal requests that are present must panic."""
+    pre = case.state[reg]["ents"]
+    add = int(toks[2])
+    reqs = [x for x in toks[3].strip("[]").split(",") if x]
+    classes = [probe_cls(x) for x in reqs]
+    dup_present = any(classes.count(c) > 1 and find(pre, c) is not None for c in classes)
+    if dup_present:
+        if t["outcome"] != "panic:overlap":
+            fails.append("%s get_disjoint_mut with a present key requested twice ended %s instead of panicking" % (reg, t["outcome"]))
+        return True
+    if len(set(classes)) != len(classes):
+        return True                       # equal absent keys: not specified
+    if t["outcome"] != "ok":
+        fails.append("%s get_disjoint_mut with pairwise different keys ended %s" % (reg, t["outcome"]))
+        return True
+    parts = [x for x in split_top(t["ret"][1:-1])] if t["ret"] not in ("[]", None) else []
+    if len(parts) != len(classes):
+        fails.append("%s get_disjoint_mut returned %d positions for %d keys" % (reg, len(parts), len(classes)))
+        return True
+    slots = []
+    for c, p in zip(classes, parts):
+        e = find(pre, c)
+        if e is None:
+            if p != "-":
+                fails.append("%s get_disjoint_mut: missing key %d got %s" % (reg, c, p))
+        else:
+            pos = pre.index(e)
+            w = "+@%d=V%d.%d" % (pos, e[2], e[3] + add)
+            if p != w:
+                fails.append("%s get_disjoint_mut: key %d got %s, get_mut gives %s" % (reg, c, p, w))
+            m = re.match(r"\+@(\d+)=", p)
+            if m:
+                slots.append(int(m.group(1)))
+    if len(set(slots)) != len(slots):
+        fails.append("%s get_disjoint_mut returned aliasing references: slots %s" % (reg, slots))
+    g = t["snaps"].get(reg)
+    if g is not None:
+        want = [(e[0], e[1], e[2], e[3] + (add if e[0] in classes else 0)) for e in pre]
+        if g["ents"] != want:
+            fails.append("%s after writing through get_disjoint_mut: holds %s, expected %s" % (reg, g["ents"], want))
+    return True
+
+
 def serde_step(case, reg, toks, t, fails):
     src = case.state[reg]["ents"]
     dst = toks[2]
@@ -698,6 +743,8 @@ def run(prop, ops_path, impl_path, profile):
                         consume_step(case, reg, toks, t, fails)
                     if "iter" in fam and op == "iter":
                         iter_step(case, reg, toks, t, fails)
+                    if "gdm" in fam and op == "gdm":
+                        gdm_step(case, reg, toks, t, fails)
                     if "serde" in fam and op == "serde":
                         serde_step(case, reg, toks, t, fails)
                 except (ValueError, IndexError, KeyError) as ex:       # an oracle bug must not look like a finding
